@@ -399,6 +399,9 @@ theorem elim_spec {tp : Votes} {st : Int} (hst : st < 0) {retained : List Cand}
         linarith
 
 
+/-- every paper of the allocation is a paper of one of the listed ballots -/
+def BallotsFrom (bs : List Ballot) (a : Alloc) : Prop := ∀ hp ∈ a, ∀ x ∈ hp.2, x.1 ∈ bs
+
 /-! ### resting with the top continuing candidate -/
 
 /-- every paper without shared ranks rests with the highest-ranked continuing candidate on it, or is
@@ -467,13 +470,15 @@ structure Moved (elim : List Cand) (a a' : Alloc) : Prop where
   nonneg : NonNeg a → NonNeg a'
   keep_none : none ∈ allocKeys a → none ∈ allocKeys a'
   grow : NonNeg a → ∀ c, c ∉ elim → totalOf a c ≤ totalOf a' c
+  ballots : ∀ bs, BallotsFrom bs a → BallotsFrom bs a'
   rests : RestsOK a → RestsOK a'
 
 theorem transferIf_moved {E : Engine} (hE : EngineOK E) {a a' : Alloc} {elim : List Cand} {ds ds' : List Draw}
     (h : transferIf E a elim ds = .ok (a', ds')) : Moved elim a a' := by
   rw [transferIf_eq] at h
   have hs := transfer_spec hE h
-  refine ⟨hs.held_eq, transfer_continuing hE h, hs.keys, hs.nonneg, hs.keep_none, ?_, ?_⟩
+  refine ⟨hs.held_eq, transfer_continuing hE h, hs.keys, hs.nonneg, hs.keep_none, ?_, ?_, ?_⟩
+
   · intro hn c hc
     apply hs.grow hn (some c)
     intro d hd he
@@ -482,6 +487,9 @@ theorem transferIf_moved {E : Engine} (hE : EngineOK E) {a a' : Alloc} {elim : L
     have := (List.mem_filter.mp hd).2
     simp at this
     exact hc this
+  · intro bs hb hp hhp x hx
+    obtain ⟨hp0, hm0, ⟨w, hw⟩, _⟩ := hs.entry hp hhp x hx
+    exact hb hp0 hm0 (x.1, w) hw
   apply RestsOK.of_transfer hs
   intro t
   simp only [List.mem_filter, decide_eq_true_eq, decide_not, Bool.not_eq_eq_eq_not, Bool.not_true,
@@ -578,6 +586,7 @@ structure CountInv (a : Alloc) (q : Rat) (out : CountOut) : Prop where
   nonneg : NonNeg a → NonNeg out.alloc
   rests : RestsOK a → RestsOK out.alloc
   keep_none : none ∈ allocKeys a → none ∈ allocKeys out.alloc
+  ballots : ∀ bs, BallotsFrom bs a → BallotsFrom bs out.alloc
   cont_eq : continuing out.alloc = (continuing a).filter (fun c => decide (c ∉ out.eliminated))
 
 theorem election_facts {a : Alloc} (hk : KeysNodup a) {eq : Bool} {qv : Rat} (hpos : 0 < qv) {nRem : Nat}
@@ -617,7 +626,10 @@ theorem count_inv {E : Engine} (hE : EngineOK E) {cfg : Cfg} {a : Alloc} (hk : K
     obtain ⟨hnd, hfacts⟩ := election_facts hk hpos hel
     have hq' : quotaValue cfg total nSeats = qv := by simp [quotaValue, hq]
     refine ⟨?_, hm.keys hk1, fun hn => hm.nonneg (hs.nonneg hn), fun hr => hm.rests (RestsOK.of_subtract hs hr),
-      fun hn => hm.keep_none (by rw [hs.keys_eq]; exact hn), ?_⟩
+      fun hn => hm.keep_none (by rw [hs.keys_eq]; exact hn),
+      fun bs hb => hm.ballots bs (fun hp hhp x hx => by
+        obtain ⟨hp0, hm0, _, w, hw⟩ := hs.entry hp hhp x hx
+        exact hb hp0 hm0 (x.1, w) hw), ?_⟩
     · rw [hm.held_eq hk1, hs.held_eq hk (by simpa [List.map_map, Function.comp_def] using hnd)
         (by
           intro x hx
@@ -635,7 +647,7 @@ theorem count_inv {E : Engine} (hE : EngineOK E) {cfg : Cfg} {a : Alloc} (hk : K
   | elimination hout =>
     obtain ⟨retained, _, _, htr, he1, _⟩ := afterElimination_inv hout
     have hm := transferIf_moved hE htr
-    refine ⟨?_, hm.keys hk, hm.nonneg, hm.rests, hm.keep_none, hm.cont_eq⟩
+    refine ⟨?_, hm.keys hk, hm.nonneg, hm.rests, hm.keep_none, hm.ballots, hm.cont_eq⟩
     rw [hm.held_eq hk, he1]; simp [sumSeats]
 
 end VL.STV
